@@ -250,6 +250,18 @@ func (h *hostile) check(what string, sig string) {
 	if h.server == "ufs" && ok {
 		st = h.byStat
 	}
+	if !ok {
+		// not served within the watchdog: a verdict needs more than a slow machine — ask once more and wait long
+		if r, err := h.by.Rpc(&wire.Msg{Type: wire.Tstat, Tag: 902, Fid: 1}, 6*W); err == nil && r.Msg != nil && r.Msg.Type == wire.Rstat {
+			h.res.Count("bystander_probes_answered_late", 1)
+			ok = true
+			st = h.byStat
+			if h.server != "ufs" {
+				q := r.Msg.Stat
+				st = fmt.Sprintf("%s/%d/%d/%x", q.Name, q.Length, q.Qid.Path, q.Mode)
+			}
+		}
+	}
 	if !ok || st != h.byStat {
 		h.res.Violate("C06;bystander-disturbed;"+h.server+";"+sig, fmt.Sprintf("after hostile session {%s} the bystander connection's open fid answers %q (before: %q)", what, st, h.byStat), nil)
 		// get a new bystander so that the run can go on
@@ -262,6 +274,15 @@ func (h *hostile) check(what string, sig string) {
 		c := h.s.Dial()
 		good := h.setup(c, 8192)
 		c.Hangup()
+		if !good {
+			// once more, on a new connection (every step has the watchdog's time again)
+			c = h.s.Dial()
+			good = h.setup(c, 8192)
+			c.Hangup()
+			if good {
+				h.res.Count("later_connections_served_at_second_attempt", 1)
+			}
+		}
 		if !good {
 			h.res.Violate("C06;later-connection-refused;"+h.server+";"+sig, fmt.Sprintf("after hostile session {%s} a fresh connection cannot negotiate/attach/walk/open", what), nil)
 		}
